@@ -418,6 +418,14 @@ def run(ctx):
                     if not b_ or b_[0] != "Div":
                         return False
                     c_ = lix_.resolve(b_[2])
+                    for _hop in range(3):
+                        # usize::from(SIZE) / SIZE as usize of a constant
+                        if c_[0] == "call" and lix_.callee(c_[1]).split("::")[-1] in ("from", "into") and len(c_[1]["args"]) == 1:
+                            c_ = lix_.resolve(c_[1]["args"][0])
+                        elif c_[0] == "cast":
+                            c_ = lix_.resolve(c_[1]["a"])
+                        else:
+                            break
                     return c_[0] == "const" and c_[1] == 4 and field in _derive(lix_, b_[1]).names
 
                 for _b, t_ in lb_.calls():
